@@ -573,6 +573,57 @@ func TestCheck(t *testing.T) {
 		enumSpace("upce_space_substitutions", "UPCE", 2_000_000, 300)
 		enumSpace("ean8_space_substitutions", "EAN8", 10_000_000, 300)
 
+		// (a') the extremes of the weighted digit sum: every number made of the digits {9, 8} and of
+		// {9, 0} only (the sum reaches its maximum for all nines): the writers must accept exactly the
+		// reference check digit, and the readers must accept exactly the reference symbol
+		{
+			eidx := 0
+			for _, sym := range []string{"EAN13", "UPCA", "EAN8", "UPCE"} {
+				n := map[string]int{"EAN13": 12, "UPCA": 11, "EAN8": 7, "UPCE": 7}[sym]
+				for _, lo := range []byte{'8', '0'} {
+					for bits := 0; bits < 1<<uint(n); bits++ {
+						eidx++
+						if !c.Mine(eidx) {
+							continue
+						}
+						if n == 12 && bits%c.N(8, 1) != 0 && bits != (1<<12)-1 && bits != 0 {
+							continue // EAN-13: every 8th pattern in the quick tier (all 4096 in thorough)
+						}
+						d := make([]byte, n)
+						for i := range d {
+							d[i] = '9'
+							if bits&(1<<uint(i)) != 0 {
+								d[i] = lo
+							}
+						}
+						if sym == "UPCE" {
+							d[0] = '0' + d[0]%2 // number system 0 / 1
+						}
+						body := string(d)
+						good := onedref.CheckDigit(body)
+						if sym == "UPCE" {
+							good = onedref.CheckDigit(onedref.ExpandUPCE(body))
+						}
+						for _, ck := range []int{good, (good + 6) % 10, (good + 1) % 10} {
+							full := body + string(rune('0'+ck))
+							rc := RefuseCase{Sym: sym, Digits: full}
+							c.Note("check_digit_extreme_sums", "sym="+sym, true, hx.HashS("ext", sym, full), func() any { return rc })
+							if !c.Enum("check_digit_extreme_sums", "refuse", rc, nil) {
+								break
+							}
+							if _, err := modulesFor(sym, full); err == nil {
+								sc := SubstCase{Sym: sym, Digits: full, Scale: 1}
+								if !c.Enum("check_digit_extreme_sums", "subst", sc, nil) {
+									break
+								}
+							}
+						}
+					}
+				}
+			}
+			c.SetExhaustive("check_digit_extreme_sums", c.Thorough())
+		}
+
 		// (b) writers refuse every wrong check digit
 		idx = 0
 		for _, sym := range []string{"EAN13", "UPCA", "EAN8", "UPCE"} {
